@@ -25,6 +25,8 @@ import LitexModel.Stream.Pipe
     gearbox i o msb          sink = i-bit word, source = o-bit word
     gate srd                 extra input: enable
     shifter dw               extra input: shift
+    pipeactor L              PipelinedActor(latency = L) with an L-stage data chain
+    crossbar n               Crossbar(n), demux.source_k wired to mux.sink_k; extra inputs: demux.sel, mux.sel
     cast revFrom revTo nf w_0 … w_{nf-1} v_0 …   field widths of the two layouts
   Multiplexer n : inputs  [sel, source.ready, (sink_k.valid, data, first, last) k=0..n-1]
                   outputs [source.valid, data, first, last, sink_0.ready … sink_{n-1}.ready]
@@ -102,8 +104,12 @@ def decDown (r nb pw : Nat) (rev : Bool) (d : Nat) (_ : List Nat) : List Nat × 
 def encDown (r nb pw : Nat) (vtc : Bool) (mux : Nat) (x : Nat × Nat) : Nat :=
   x.1 + 2 ^ nb * (x.2 + 2 ^ pw * (if vtc then b2n (mux + 1 == r) else 0))
 
+/-- Source number of a `_DownConverter`/`Unpack`: lane | param<<nb | (vtc ? valid_token_count<<(nb+pw)). -/
+def encDownV (nb pw : Nat) (vtc : Bool) (x : (Nat × Nat) × Bool) : Nat :=
+  x.1.1 + 2 ^ nb * (x.1.2 + 2 ^ pw * (if vtc then b2n x.2 else 0))
+
 def numDown (r nb pw : Nat) (rev vtc : Bool) : NumMachine Nat :=
-  numElemG (decDown r nb pw rev) (encDown r nb pw vtc) rkey (downConv r 0)
+  numElemG (decDown r nb pw rev) (fun _ => encDownV nb pw vtc) rkey (downConvV r 0)
 
 def decStrideDown (r pw : Nat) (rev : Bool) (ws : List Nat) (d : Nat) (_ : List Nat) : List Nat × Nat :=
   (phys rev (strideIn r ws d), (d / 2 ^ (r * sumW ws)) % 2 ^ pw)
@@ -125,8 +131,14 @@ def numGearbox (i o : Nat) (msb : Bool) : NumMachine (GbState Bool) :=
 def numGate (srd : Bool) : NumMachine Unit :=
   numElemG (fun d ex => (d, n2b (ex.headD 0))) (fun _ x => x) rkey (gate srd 0)
 
+def numCrossbar (n : Nat) : NumMachine Unit :=
+  numElemG (fun d ex => (d, ex.headD 0, (ex.drop 1).headD 0)) (fun _ x => x) rkey (crossbar n 0)
+
 def numShifter (dw : Nat) : NumMachine ShState :=
   numElemG (fun d ex => (d, ex.headD 0)) (fun _ x => x) rkey (shifter dw)
+
+def numPipeActor (L : Nat) : NumMachine (List (Bool × Tok Nat)) :=
+  numElemG (fun d _ => d) (fun _ x => x) rkey (pipeActor L zTok)
 
 def numDelay (n : Nat) : NumMachine (DelayState Nat n) :=
   numElemG (fun d _ => d) (fun _ x => x) (delayKey n) (delay zTok n)
